@@ -344,7 +344,7 @@ func genC06() {
 	acct := newConstEnv(acctFiles)
 	ord := newConstEnv(orderFiles)
 	for _, n := range []string{"StateInitiated", "StateCanceledAfterRecovery",
-		"StatePendingBatch", "StatePendingClosed"} {
+		"StatePendingBatch", "StatePendingClosed", "StateClosed"} {
 		l.p("def acct%s : Nat := %s", n, intConst(acct, "account", n))
 	}
 	for _, n := range []string{"StatePartiallyFilled", "StateExecuted"} {
